@@ -4,13 +4,18 @@ import Driver.Util
 Engine `local`: line protocol for C17 (`Counter`, `LocalWaker`) and C16 (`local_channel::mpsc`).
 
 ```
-case <name> counter <cap>     acquire h | drop g | avail h w | clone h | total h
-case <name> lw                reg w | wake | take
-case <name> chan              send i x | clone i | dropS i | close i | poll w | rsender | dropR
+case <name> counter <cap> [probe]   acquire h | drop g | avail h w | clone h | total h | dropH h | dbg h | dbgG g
+case <name> lw [default]      reg w | wake | take | dbg
+case <name> chan              send i x | ssend i x | clone i | dropS i | close i | poll w | recv w | recvNew w |
+                              recvDrop | rsender | dropR | sready i w | sflush i w | sclose i w | dbgS i | dbgR
 ```
 Every answer ends in ` woke=<ids>`: the counting wakers (ids `0..3`) woken by this operation, `-` if
-none.  Operations that do not apply (unknown handle / guard / sender, waker id ≥ 4, receiver already
-dropped, wrong engine) answer `bad-op` and leave the state unchanged.
+none.  Operations that do not apply (unknown / dropped handle, guard, sender, waker id ≥ 4, receiver
+already dropped, wrong engine) answer `bad-op` and leave the state unchanged.
+
+`recv w` polls the pending `recv()` future (a fresh one if none is pending), `recvNew w` drops a pending
+one first; the future has no state, so both are `Chan.Op.poll .recv w` here.  `dbg` of a `LocalWaker`
+is the constant `LocalWaker` and is answered here without the model.
 -/
 namespace Driver.Local
 open Driver ActixNet
@@ -41,15 +46,32 @@ def counterObs : Counter.Obs → String
   | .avail b => s!"avail {b01 b}" ++ wokeStr none
   | .handle id => s!"handle {id}" ++ wokeStr none
   | .total n => s!"total {n}" ++ wokeStr none
+  | .handleDropped => "dropped" ++ wokeStr none
+  | .debug g n c =>
+    "dbg " ++ (if g then "CounterGuard" else "Counter") ++ "(Counter { count: " ++ toString n ++ ", capacity: " ++
+      toString c ++ ", task: LocalWaker })" ++ wokeStr none
 
 def lwObs : LocalWaker.Obs → String
   | .registered b => s!"registered {b01 b}" ++ wokeStr none
   | .woke w => "done" ++ wokeStr w
   | .took w => s!"took {optStr w}" ++ wokeStr none
 
-def chanObs : Chan.Obs → String
+/-- `Debug` of `Sender` / `Receiver`: `derive(Debug)` over `Rc<RefCell<Shared>>` -/
+def chanDebug (who : String) (buf : List Nat) (hr : Bool) : String :=
+  "dbg " ++ who ++ " { shared: RefCell { value: Shared { buffer: " ++ toString buf ++
+    ", blocked_recv: LocalWaker, has_receiver: " ++ (if hr then "true" else "false") ++ " } } }"
+
+def chanObs (op : Chan.Op) : Chan.Obs → String
   | .sent true w => "ok" ++ wokeStr w
-  | .sent false w => "err" ++ wokeStr w
+  | .sent false w =>
+    -- `SendError::into_inner` hands the rejected message back
+    (match op with | .send _ _ x => s!"err {x}" | _ => "err") ++ wokeStr w
+  | .readyOk => "ready ok" ++ wokeStr none
+  | .futDropped => "fdropped" ++ wokeStr none
+  | .debug buf hr =>
+    (match op with
+      | .quiet (.debugSender _) => chanDebug "Sender" buf hr
+      | _ => chanDebug "Receiver" buf hr) ++ wokeStr none
   | .sender id => s!"sender {id}" ++ wokeStr none
   | .senderDropped w => "dropped" ++ wokeStr w
   | .closed w => "closed" ++ wokeStr w
@@ -70,6 +92,9 @@ def counterOp : List String → Option Counter.Op
     | _, _ => none
   | ["clone", h] => (num h).map .clone
   | ["total", h] => (num h).map .total
+  | ["dropH", h] => (num h).map .dropHandle
+  | ["dbg", h] => (num h).map .debug
+  | ["dbgG", g] => (num g).map .debugGuard
   | _ => none
 
 def lwOp : List String → Option LocalWaker.Op
@@ -80,16 +105,35 @@ def lwOp : List String → Option LocalWaker.Op
   | ["take"] => some .take
   | _ => none
 
+def senderWaker (i w : String) (k : Nat → Chan.Quiet) : Option Chan.Op :=
+  match num i, num w with
+  | some i, some w => if w < nWakers then some (.quiet (k i)) else none
+  | _, _ => none
+
+def recvOp (w : String) (p : Chan.RecvPath) : Option Chan.Op :=
+  match num w with
+  | some w => if w < nWakers then some (.poll p w) else none
+  | none => none
+
 def chanOp : List String → Option Chan.Op
   | ["send", i, x] => match num i, num x with
-    | some i, some x => some (.send i x)
+    | some i, some x => some (.send .send i x)
     | _, _ => none
+  | ["ssend", i, x] => match num i, num x with
+    | some i, some x => some (.send .sink i x)
+    | _, _ => none
+  | ["sready", i, w] => senderWaker i w .sinkReady
+  | ["sflush", i, w] => senderWaker i w .sinkFlush
+  | ["sclose", i, w] => senderWaker i w .sinkClose
+  | ["recv", w] => recvOp w .recv
+  | ["recvNew", w] => recvOp w .recv
+  | ["recvDrop"] => some (.quiet .recvDrop)
+  | ["dbgS", i] => (num i).map (fun i => .quiet (.debugSender i))
+  | ["dbgR"] => some (.quiet .debugReceiver)
   | ["clone", i] => (num i).map .clone
   | ["dropS", i] => (num i).map .dropSender
   | ["close", i] => (num i).map .close
-  | ["poll", w] => match num w with
-    | some w => if w < nWakers then some (.poll w) else none
-    | none => none
+  | ["poll", w] => recvOp w .pollNext
   | ["rsender"] => some .senderFromReceiver
   | ["dropR"] => some .dropReceiver
   | _ => none
@@ -99,7 +143,12 @@ def step (st : State) (line : String) : State × String :=
   | ["case", _, "counter", cap] => match num cap with
     | some cap => (.counter (Counter.init cap), "ok")
     | none => (.idle, "bad-op")
+  -- `probe`: the harness's oracle also asks `available` after every operation where asking changes nothing
+  | ["case", _, "counter", cap, "probe"] => match num cap with
+    | some cap => (.counter (Counter.init cap), "ok")
+    | none => (.idle, "bad-op")
   | ["case", _, "lw"] => (.lw {}, "ok")
+  | ["case", _, "lw", "default"] => (.lw {}, "ok")
   | ["case", _, "chan"] => (.chan Chan.init, "ok")
   | "case" :: _ => (.idle, "bad-op")
   | ws =>
@@ -111,12 +160,12 @@ def step (st : State) (line : String) : State × String :=
         | none => (st, "bad-op")
         | some (s', o) => (.counter s', counterObs o)
     | .lw l => match lwOp ws with
-      | none => (st, "bad-op")
+      | none => if ws = ["dbg"] then (st, "dbg LocalWaker" ++ wokeStr none) else (st, "bad-op")
       | some op => (.lw (LocalWaker.step l op).1, lwObs (LocalWaker.step l op).2)
     | .chan c => match chanOp ws with
       | none => (st, "bad-op")
       | some op => match Chan.step c op with
         | none => (st, "bad-op")
-        | some (c', o) => (.chan c', chanObs o)
+        | some (c', o) => (.chan c', chanObs op o)
 
 end Driver.Local
